@@ -503,6 +503,7 @@ pub fn run(a: &Args) -> i32 {
         fam.extend(after.into_iter().step_by(if thorough { 16 } else { 60 }));
         fam.extend(before.into_iter().step_by(if thorough { 16 } else { 60 }));
         fam.extend(castle_shaped_moves().into_iter().step_by(if thorough { 4 } else { 12 }));
+        fam.extend(many_queens().into_iter().filter(|p| p.is_consistent()));
         for p in fam {
             if seen.insert(canon(&p)) {
                 states.push((p, None, true));
